@@ -1,6 +1,7 @@
 package drive
 
 import (
+	relayertypes "github.com/goatnetwork/goat/x/relayer/types"
 	"bytes"
 	"crypto/sha256"
 	"encoding/hex"
@@ -328,7 +329,26 @@ func (d *hoDriver) height() error {
 	if d.fill > 0 {
 		bp.Txs = nil
 	}
+	// now and then one more relayer transaction waits in the mempool whose timeout height is the height just committed (the
+	// mempool still admits it, the next block may not carry it: the honest proposer must leave it out), the height being built
+	// (last chance) or far away
+	var expiring []byte
+	if a.C.Height >= a.C.InitialHeight && d.fill == 0 && rare(4) {
+		if vc, err := a.voteCtx(); err == nil {
+			prop := a.member(vc.Proposer)
+			_, accSeq, _ := a.C.Account(prop.Addr)
+			sq := accSeq + uint64(len(bp.Txs))
+			to := []uint64{uint64(a.C.Height), uint64(a.C.Height), uint64(a.C.Height) + 1, uint64(a.C.Height) + 50}[r.Intn(4)]
+			msg := &relayertypes.MsgAcceptProposerRequest{Proposer: prop.Bech, Epoch: vc.Epoch}
+			if bz, err := a.C.SignTx(prop.Priv, []sdk.Msg{msg}, sim.SignOpts{Seq: &sq, TimeoutHeight: to}); err == nil {
+				expiring = bz
+			}
+		}
+	}
 	feedMempool := func() {
+		if expiring != nil && a.C.Height >= a.C.InitialHeight {
+			defer func() { a.C.App.CheckTx(&abci.RequestCheckTx{Tx: expiring, Type: abci.CheckTxType_New}) }()
+		}
 		if a.C.Height >= a.C.InitialHeight { // CheckTx needs a committed block
 			for _, t := range bp.Txs {
 				a.C.App.CheckTx(&abci.RequestCheckTx{Tx: t.Bytes, Type: abci.CheckTxType_New})
